@@ -2,6 +2,8 @@ import PrologVerif.Driver.Common
 import PrologVerif.Driver.C18
 import PrologVerif.Driver.C02
 import PrologVerif.Driver.C03
+import PrologVerif.Driver.C10
+import PrologVerif.Driver.C01
 import PrologVerif.Driver.C08
 import PrologVerif.Driver.C14
 import PrologVerif.Driver.C11
@@ -16,6 +18,8 @@ def handlers : List (String × Handler) :=
     ("c02.unify", C02.handler),
     ("c02.env", C02.envHandler),
     ("c03.force", C03.handler),
+    ("c10.compile", C10.handler),
+    ("c10.observe", C10.observeHandler),
     ("c08.compare", C08.compareHandler),
     ("c08.sort", C08.sortHandler),
     ("c14.table", C14.tableHandler),
